@@ -9,6 +9,7 @@
 -/
 import SkyllhModel.Model.Rng
 import SkyllhModel.Model.RngDeep
+import SkyllhModel.Model.RngR7
 import SkyllhModel.Proofs.Rng
 import SkyllhModel.Generated.C08
 import Mathlib.Tactic
@@ -1941,3 +1942,397 @@ theorem c08_sig_kwargs_setdefault_counterexample :
 
 /-- the source read at check time sets the entry on every call -/
 theorem c08_sig_kwargs_for_current_source : Gen.C08.sigKwargsOverwritesMean = true := by decide
+
+
+/-! ## round 7: `RandomStateService` as an object — the label `seed` describes the generator -/
+
+section rssObject
+open RngR7
+
+/-- a constructed service is consistent: an integer label is a valid seed and the generator runs on its
+stream from the start; `RandomStateService(None)` is labelled `None` and runs on entropy -/
+theorem c08_rss_mk_consistent (hi tag : Nat) (a : SeedArg) (r : RSS) (h : mk hi tag a = .ok r) :
+    Consistent hi r ∧ (∀ v, r.seed = some v → r.toStream = some (Stream.fresh v.toNat)) := by
+  unfold mk at h
+  cases a with
+  | none =>
+    simp only [intCast, npSeed] at h
+    cases h
+    exact ⟨⟨tag, 0, rfl⟩, by intro v hv; cases hv⟩
+  | bad => simp [intCast] at h
+  | int v =>
+    simp only [intCast, npSeed] at h
+    by_cases hv : 0 ≤ v ∧ v < (hi : Int)
+    · rw [if_pos hv] at h
+      cases h
+      refine ⟨⟨hv.1, hv.2, 0, rfl⟩, ?_⟩
+      intro w hw
+      cases hw
+      rfl
+    · rw [if_neg hv] at h
+      cases h
+
+/-- what the constructor does with every argument form: `TypeError` iff `int(seed)` fails, `ValueError` iff
+the integer is outside `[0, hi)`, else a service labelled with the integer (or `None`) -/
+theorem c08_rss_mk_spec (hi tag : Nat) (a : SeedArg) :
+    mk hi tag a = match a with
+      | .bad => .error .typeError
+      | .none => .ok ⟨none, .entropy tag 0⟩
+      | .int v => if 0 ≤ v ∧ v < (hi : Int) then .ok ⟨some v, .seeded v.toNat 0⟩ else .error .valueError := by
+  cases a with
+  | none => rfl
+  | bad => rfl
+  | int v =>
+    simp only [mk, intCast, npSeed]
+    by_cases hv : 0 ≤ v ∧ v < (hi : Int)
+    · simp only [if_pos hv]
+    · simp only [if_neg hv]
+
+/-- **strong exception safety of `reseed`** (repaired order): a `reseed` that raises leaves the service —
+label and generator — exactly as it was -/
+theorem c08_rss_failed_reseed_no_change (hi tag : Nat) (r : RSS) (a : SeedArg) (e : RErr)
+    (h : (reseed true hi tag r a).1 = .error e) : (reseed true hi tag r a).2 = r := by
+  unfold reseed at h ⊢
+  cases hc : intCast a with
+  | error e' => rfl
+  | ok sd =>
+    rw [hc] at h
+    simp only at h ⊢
+    cases hs : npSeed hi tag sd with
+    | error e' => simp
+    | ok g => rw [hs] at h; cases h
+
+/-- a `reseed` that returns gives the object `RandomStateService(seed)` would give: **reseeded = new** -/
+theorem c08_rss_reseed_eq_fresh (aa : Bool) (hi tag : Nat) (r : RSS) (a : SeedArg)
+    (h : (reseed aa hi tag r a).1 = .ok ()) : mk hi tag a = .ok (reseed aa hi tag r a).2 := by
+  unfold reseed at h ⊢
+  unfold mk
+  cases hc : intCast a with
+  | error e' => rw [hc] at h; cases h
+  | ok sd =>
+    rw [hc] at h
+    simp only at h ⊢
+    cases hs : npSeed hi tag sd with
+    | error e' => rw [hs] at h; cases h
+    | ok g => rfl
+
+/-- `reseed` raises exactly when the constructor would, with the same exception -/
+theorem c08_rss_reseed_raises_iff (aa : Bool) (hi tag : Nat) (r : RSS) (a : SeedArg) (e : RErr) :
+    (reseed aa hi tag r a).1 = .error e ↔ mk hi tag a = .error e := by
+  unfold reseed mk
+  cases hc : intCast a with
+  | error e' => simp
+  | ok sd =>
+    simp only
+    cases hs : npSeed hi tag sd with
+    | error e' => simp
+    | ok g => simp
+
+theorem C08.consistent_draw (hi : Nat) (r : RSS) (k : Nat) (h : Consistent hi r) : Consistent hi (draw r k) := by
+  unfold Consistent at h ⊢
+  cases hs : r.seed with
+  | none =>
+    rw [hs] at h
+    obtain ⟨t, p, hg⟩ := h
+    simp only [draw, hs]
+    exact ⟨t, p + k, by rw [hg]; rfl⟩
+  | some v =>
+    rw [hs] at h
+    obtain ⟨h0, h1, p, hg⟩ := h
+    simp only [draw, hs]
+    exact ⟨h0, h1, p + k, by rw [hg]; rfl⟩
+
+theorem C08.consistent_reseed (hi tag : Nat) (r : RSS) (a : SeedArg) (h : Consistent hi r) :
+    Consistent hi (reseed true hi tag r a).2 := by
+  cases ho : (reseed true hi tag r a).1 with
+  | error e => rw [c08_rss_failed_reseed_no_change hi tag r a e ho]; exact h
+  | ok u =>
+    cases u
+    exact (c08_rss_mk_consistent hi tag a _ (c08_rss_reseed_eq_fresh true hi tag r a ho)).1
+
+/-- the full statement, for either order of the two assignments in `reseed`: after **every** history of
+draws and reseeds — including reseeds that raise, with any argument form — on a consistent service, the
+label still describes the generator -/
+def c08_rss_label_describes_stream_statement (assignAfter : Bool) : Prop :=
+  ∀ (hi tag : Nat) (r : RSS) (ops : List ROp), Consistent hi r → Consistent hi (runOps assignAfter hi tag r ops).2
+
+/-- **the label describes the stream after every history** (repaired order of `reseed`) -/
+theorem c08_rss_label_describes_stream : c08_rss_label_describes_stream_statement true := by
+  intro hi tag r ops
+  induction ops generalizing tag r with
+  | nil => intro h; exact h
+  | cons op ops ih =>
+    intro h
+    simp only [runOps]
+    apply ih
+    cases op with
+    | reseed a => exact C08.consistent_reseed hi tag r a h
+    | draw k => exact C08.consistent_draw hi r k h
+
+/-- with the pinned order (`self._seed = int_cast(…)` before `self.random.seed(self._seed)`) the statement is
+false: `RandomStateService(5)`, then `reseed(-1)` raises `ValueError` and leaves a service labelled `-1` whose
+generator still runs on the stream of 5 -/
+theorem c08_rss_label_describes_stream_counterexample : ¬ c08_rss_label_describes_stream_statement false := by
+  intro h
+  have := h 4294967296 0 ⟨some 5, .seeded 5 0⟩ [.reseed (.int (-1))] ⟨by decide, by decide, 0, rfl⟩
+  simp [runOps, RngR7.step, reseed, intCast, npSeed, Consistent] at this
+
+/-- **same label, same stream** — two services with arbitrary different pasts (any consistent start, any
+histories incl. failing reseeds) that report the same integer seed run on the same numpy stream (possibly at
+different positions); after `reseed(s)` returns on both they are the same object state -/
+theorem c08_rss_same_label_same_stream (hi t₁ t₂ : Nat) (r₁ r₂ : RSS) (ops₁ ops₂ : List ROp)
+    (h₁ : Consistent hi r₁) (h₂ : Consistent hi r₂) (v : Int)
+    (e₁ : (runOps true hi t₁ r₁ ops₁).2.seed = some v) (e₂ : (runOps true hi t₂ r₂ ops₂).2.seed = some v) :
+    ∃ p₁ p₂, (runOps true hi t₁ r₁ ops₁).2.toStream = some ⟨v.toNat, p₁⟩ ∧
+      (runOps true hi t₂ r₂ ops₂).2.toStream = some ⟨v.toNat, p₂⟩ := by
+  have c₁ := c08_rss_label_describes_stream hi t₁ r₁ ops₁ h₁
+  have c₂ := c08_rss_label_describes_stream hi t₂ r₂ ops₂ h₂
+  unfold Consistent at c₁ c₂
+  rw [e₁] at c₁
+  rw [e₂] at c₂
+  obtain ⟨_, _, p₁, g₁⟩ := c₁
+  obtain ⟨_, _, p₂, g₂⟩ := c₂
+  exact ⟨p₁, p₂, by simp [RSS.toStream, g₁], by simp [RSS.toStream, g₂]⟩
+
+/-- every worker seed `parallelize` draws (`randint(workerSeedLow, workerSeedHigh)` as read from the source)
+is accepted by `RandomStateService(seed=…)`: no `ValueError`, the worker is labelled with the drawn word and
+starts its stream -/
+theorem c08_rss_worker_seed_accepted (tag w : Nat) (hw : w < Gen.C08.workerSeedHigh) :
+    mk 4294967296 tag (.int w) = .ok ⟨some w, .seeded w 0⟩ := by
+  rw [c08_rss_mk_spec]
+  have : Gen.C08.workerSeedHigh ≤ 4294967296 := by decide
+  have h : (0 : Int) ≤ (w : Int) ∧ (w : Int) < ((4294967296 : Nat) : Int) := ⟨by omega, by omega⟩
+  simp only [if_pos h]
+  simp
+
+/-- the source read at check time writes the label after numpy has accepted the seed -/
+theorem c08_reseed_for_current_source :
+    Gen.C08.reseedAssignsAfterSeeding = true ∧
+      c08_rss_label_describes_stream_statement Gen.C08.reseedAssignsAfterSeeding :=
+  ⟨by decide, by
+    have h : Gen.C08.reseedAssignsAfterSeeding = true := by decide
+    rw [h]; exact c08_rss_label_describes_stream⟩
+
+-- non-vacuity: a history with a refused seed, a refused form, `None`, and draws
+example : (runOps true 4294967296 0 ⟨some 5, .seeded 5 0⟩
+    [.draw 3, .reseed (.int (-1)), .reseed .bad, .draw 2, .reseed (.int 7), .draw 1]).2 = ⟨some 7, .seeded 7 1⟩ := by decide
+example : ((runOps true 4294967296 0 ⟨some 5, .seeded 5 0⟩ [.draw 3, .reseed (.int 4294967296)]).1.map (·.2)) =
+    [some 5, some 5] := by decide
+example : Consistent 4294967296 ⟨some 5, .seeded 5 0⟩ := ⟨by decide, by decide, 0, rfl⟩
+example : (runOps true 4294967296 0 ⟨some 5, .seeded 5 0⟩ [.reseed .none, .draw 2]).2 = ⟨none, .entropy 0 2⟩ := by decide
+
+end rssObject
+
+
+/-! ## round 7: the per-dataset merge of `generate_signal_events` / `generate_pseudo_data` -/
+
+section pseudoData
+open RngR7
+variable {V D M : Type}
+
+namespace C08
+
+theorem updAt_length {α : Type} (f : α → α) (k : Nat) (l : List α) : (updAt f k l).length = l.length := by
+  induction l generalizing k with
+  | nil => cases k <;> simp [updAt]
+  | cons x xs ih => cases k with
+    | zero => simp [updAt]
+    | succ k => simp [updAt, ih]
+
+theorem updAt_get {α : Type} (f : α → α) (k i : Nat) (l : List α) :
+    (updAt f k l)[i]? = if i = k then l[i]?.map f else l[i]? := by
+  induction l generalizing k i with
+  | nil => cases k <;> simp [updAt]
+  | cons x xs ih =>
+    cases k with
+    | zero => cases i with
+      | zero => simp [updAt]
+      | succ i => simp [updAt]
+    | succ k => cases i with
+      | zero => simp [updAt]
+      | succ i => simp [updAt, ih]
+
+theorem updAt_map_some (s : List D) (k : Nat) (l : List (List D)) :
+    updAt (mergeEv s) k (l.map some) = (updAt (· ++ s) k l).map some := by
+  induction l generalizing k with
+  | nil => cases k <;> simp [updAt]
+  | cons x xs ih => cases k with
+    | zero => simp [updAt, mergeEv]
+    | succ k => simp [updAt, ih]
+
+/-- invariant of the injection loop on a state in which every dataset already has events -/
+theorem injectAll_spec (es : List (Nat × List D)) (n : List Nat) (eb : List (List D))
+    (st : List Nat × List (Option (List D))) (h : injectAll (n, eb.map some) es = some st) :
+    ∃ eb' : List (List D), st.2 = eb'.map some ∧ eb'.length = eb.length ∧ st.1.length = n.length ∧
+      (∀ i, eb'[i]? = eb[i]?.map (· ++ sigFor i es)) ∧
+      (∀ i, st.1[i]? = n[i]?.map (· + (sigFor i es).length)) := by
+  induction es generalizing n eb with
+  | nil =>
+    simp only [injectAll] at h
+    cases h
+    exact ⟨eb, rfl, rfl, rfl, by intro i; cases eb[i]? <;> simp [sigFor], by intro i; cases n[i]? <;> simp [sigFor]⟩
+  | cons e es ih =>
+    simp only [injectAll, injectOne] at h
+    by_cases hk : e.1 < n.length ∧ e.1 < (eb.map some).length
+    · rw [if_pos hk] at h
+      simp only [updAt_map_some] at h
+      obtain ⟨eb', h1, h2, h3, h4, h5⟩ := ih _ _ h
+      refine ⟨eb', h1, by rw [h2, updAt_length], by rw [h3, updAt_length], ?_, ?_⟩
+      · intro i
+        rw [h4 i, updAt_get]
+        by_cases hi : i = e.1
+        · subst hi
+          simp only [if_pos, sigFor]
+          cases eb[e.1]? <;> simp [List.append_assoc]
+        · have : ¬ e.1 = i := fun h => hi h.symm
+          simp only [if_neg hi, sigFor, if_neg this]
+      · intro i
+        rw [h5 i, updAt_get]
+        by_cases hi : i = e.1
+        · subst hi
+          simp only [if_pos, sigFor]
+          cases n[e.1]? <;> simp [Nat.add_assoc]
+        · have : ¬ e.1 = i := fun h => hi h.symm
+          simp only [if_neg hi, sigFor, if_neg this]
+    · rw [if_neg hk] at h
+      cases h
+
+/-- the loop raises only for a dataset index the analysis does not have -/
+theorem injectAll_isSome (es : List (Nat × List D)) (st : List Nat × List (Option (List D)))
+    (hl : st.1.length = st.2.length) (hk : ∀ e ∈ es, e.1 < st.1.length) : (injectAll st es).isSome = true := by
+  induction es generalizing st with
+  | nil => rfl
+  | cons e es ih =>
+    have he := hk e (by simp)
+    have hc : e.1 < st.1.length ∧ e.1 < st.2.length := ⟨he, by omega⟩
+    simp only [injectAll, injectOne, if_pos hc]
+    apply ih
+    · simp [updAt_length, hl]
+    · intro e' h'
+      simp only [updAt_length]
+      exact hk e' (by simp [h'])
+
+end C08
+
+/-- `mean_n_sig == 0`: the signal generator is not called, nothing is drawn, the lists come back as given -/
+theorem c08_signal_zero_mean_draws_nothing (nds : Nat) (isZero : M → Bool)
+    (sigGen : M → (Nat → V) → (Nat × List (Nat × List D)) × Nat) (mean : M) (hz : isZero mean = true)
+    (n : List Nat) (ev : List (Option (List D))) (hn : n.length = nds) (he : ev.length = nds) (view : Nat → V) :
+    generateSignalEvents nds isZero sigGen mean (some n) (some ev) view = .ok ⟨0, n, ev, 0⟩ := by
+  simp [generateSignalEvents, hn, he, hz]
+
+/-- **the background of a trial does not depend on the signal strength, and the two generators read
+consecutive, disjoint parts of the stream**: whenever `generate_pseudo_data` returns, every dataset holds
+its background events (generated from the stream at the service's position) followed by the signal events of
+that dataset in injection order (generated by the signal generator reading from where the background
+generator stopped), `n_events_list` counts exactly those, `n_sig` is the signal generator's, and the service
+advanced by the words of both -/
+theorem c08_pseudo_data_spec (nds : Nat) (isZero : M → Bool) (bkgGen : (Nat → V) → (List Nat × List (List D)) × Nat)
+    (sigGen : M → (Nat → V) → (Nat × List (Nat × List D)) × Nat) (mean : M) (view : Nat → V) (o : PseudoOut D)
+    (h : generatePseudoData nds isZero bkgGen sigGen mean view = .ok o) :
+    let b := bkgGen view
+    let sg := if isZero mean then ((0, []), 0) else sigGen mean (fun i => view (b.2 + i))
+    o.nSig = sg.1.1 ∧ o.words = b.2 + sg.2 ∧ o.ev.length = b.1.2.length ∧ o.nEv.length = b.1.1.length ∧
+      (∀ i, o.ev[i]? = b.1.2[i]?.map (fun bk => some (bk ++ sigFor i sg.1.2))) ∧
+      (∀ i, o.nEv[i]? = b.1.1[i]?.map (· + (sigFor i sg.1.2).length)) := by
+  intro b sg
+  unfold generatePseudoData at h
+  simp only at h
+  cases hg : generateSignalEvents nds isZero sigGen mean (some (bkgGen view).1.1) (some ((bkgGen view).1.2.map some))
+      (fun i => view ((bkgGen view).2 + i)) with
+  | error e => rw [hg] at h; cases h
+  | ok o' =>
+    rw [hg] at h
+    cases h
+    unfold generateSignalEvents at hg
+    simp only at hg
+    by_cases hl : (bkgGen view).1.1.length ≠ nds ∨ ((bkgGen view).1.2.map some).length ≠ nds
+    · rw [if_pos hl] at hg; cases hg
+    · rw [if_neg hl] at hg
+      by_cases hz : isZero mean = true
+      · rw [if_pos hz] at hg
+        cases hg
+        have hsg : sg = ((0, []), 0) := by simp [sg, hz]
+        rw [hsg]
+        refine ⟨rfl, rfl, by simp [b], rfl, ?_, ?_⟩
+        · intro i; simp only [b, sigFor, List.append_nil, List.getElem?_map]
+        · intro i; simp only [b, sigFor, List.length_nil, Nat.add_zero]
+          try (cases (bkgGen view).1.1[i]? <;> rfl)
+      · rw [if_neg hz] at hg
+        cases hi : injectAll ((bkgGen view).1.1, (bkgGen view).1.2.map some)
+            (sigGen mean (fun i => view ((bkgGen view).2 + i))).1.2 with
+        | none => rw [hi] at hg; cases hg
+        | some st =>
+          rw [hi] at hg
+          cases hg
+          obtain ⟨eb', h1, h2, h3, h4, h5⟩ := C08.injectAll_spec _ _ _ _ hi
+          have hz' : isZero mean = false := by cases hb : isZero mean <;> simp_all
+          have hsg : sg = sigGen mean (fun i => view (b.2 + i)) := by simp [sg, hz']
+          rw [hsg]
+          refine ⟨rfl, rfl, by simp [h1, h2, b], h3, ?_, ?_⟩
+          · intro i
+            simp only [h1, List.getElem?_map, h4 i]
+            cases (bkgGen view).1.2[i]? <;> rfl
+          · intro i; exact h5 i
+
+/-- `generate_pseudo_data` raises nothing when the generators keep to the analysis' datasets: background for
+`nds` datasets, signal only for dataset indices below `nds` -/
+theorem c08_pseudo_data_no_error (nds : Nat) (isZero : M → Bool) (bkgGen : (Nat → V) → (List Nat × List (List D)) × Nat)
+    (sigGen : M → (Nat → V) → (Nat × List (Nat × List D)) × Nat) (mean : M) (view : Nat → V)
+    (hb : (bkgGen view).1.1.length = nds ∧ (bkgGen view).1.2.length = nds)
+    (hs : ∀ v, ∀ e ∈ (sigGen mean v).1.2, e.1 < nds) :
+    ∃ o, generatePseudoData nds isZero bkgGen sigGen mean view = .ok o := by
+  unfold generatePseudoData generateSignalEvents
+  simp only
+  have hl : ¬ ((bkgGen view).1.1.length ≠ nds ∨ ((bkgGen view).1.2.map some).length ≠ nds) := by simp [hb.1, hb.2]
+  rw [if_neg hl]
+  by_cases hz : isZero mean = true
+  · rw [if_pos hz]; exact ⟨_, rfl⟩
+  · rw [if_neg hz]
+    have := C08.injectAll_isSome (sigGen mean (fun i => view ((bkgGen view).2 + i))).1.2
+      ((bkgGen view).1.1, (bkgGen view).1.2.map some) (by simp [hb.1, hb.2])
+      (by intro e he; simp only [hb.1]; exact hs _ e he)
+    cases hi : injectAll ((bkgGen view).1.1, (bkgGen view).1.2.map some)
+        (sigGen mean (fun i => view ((bkgGen view).2 + i))).1.2 with
+    | none => rw [hi] at this; cases this
+    | some st => exact ⟨_, rfl⟩
+
+-- non-vacuity: three datasets, signal for datasets 2 and 0 (in that order), background reads 4 words
+example : (match generatePseudoData (V := Nat) (D := Nat) (M := Nat) 3 (· == 0)
+      (fun v => (([1, 1, 2], [[v 0], [v 1], [v 2, v 3]]), 4)) (fun m v => ((m, [(2, [v 0]), (0, [v 1, v 2])]), 3)) 3 id with
+    | .ok o => (o.nSig, o.nEv, o.ev, o.words)
+    | .error _ => (0, [], [], 0)) = (3, [3, 1, 3], [some [0, 5, 6], some [1], some [2, 3, 4]], 7) := by decide
+example : (match generatePseudoData (V := Nat) (D := Nat) (M := Nat) 2 (· == 0)
+      (fun v => (([1, 1], [[v 0], [v 1]]), 2)) (fun m _ => ((m, [(5, [])]), 0)) 1 id with
+    | .ok _ => none
+    | .error e => some e) = some .indexError := by decide
+
+end pseudoData
+
+/-! ## round 7: the public `random` setter -/
+
+section rssSetter
+open RngR7
+/-- the `random` setter never touches the label; a refused object (`TypeError`) changes nothing -/
+theorem c08_rss_setter_keeps_label (r : RSS) (g : Option GenSt) :
+    (setRandom r g).2.seed = r.seed ∧ (∀ e, (setRandom r g).1 = .error e → (setRandom r g).2 = r) := by
+  cases g with
+  | none => exact ⟨rfl, fun _ _ => rfl⟩
+  | some g => exact ⟨rfl, fun e h => by simp [setRandom] at h⟩
+
+/-- why the history theorems exclude the public setter: assigning a generator of another seed leaves a label
+that does not describe the stream (by design of the class; named assumption of `c08_rss_label_describes_stream`) -/
+theorem c08_rss_setter_breaks_label_counterexample :
+    ∃ (r : RSS) (g : GenSt), Consistent 4294967296 r ∧ ¬ Consistent 4294967296 (setRandom r (some g)).2 :=
+  ⟨⟨some 5, .seeded 5 0⟩, .seeded 7 0, ⟨by decide, by decide, 0, rfl⟩, by simp [setRandom, Consistent]⟩
+
+/-- **a `reseed` that returns repairs everything**: after ANY history — also one that assigned foreign
+generators through the setter, from any (even inconsistent) state — the label describes the stream again -/
+theorem c08_rss_reseed_restores_label (hi t tag : Nat) (r : RSS) (ops : List ROpX) (a : SeedArg)
+    (h : (reseed true hi tag (runOpsX true hi t r ops).2 a).1 = .ok ()) :
+    Consistent hi (reseed true hi tag (runOpsX true hi t r ops).2 a).2 :=
+  (c08_rss_mk_consistent hi tag a _ (c08_rss_reseed_eq_fresh true hi tag _ a h)).1
+
+example : (runOpsX true 4294967296 0 ⟨some 5, .seeded 5 0⟩
+    [.op (.draw 3), .setRandom (some (.seeded 9 4)), .setRandom none, .op (.draw 1)]).2 = ⟨some 5, .seeded 9 5⟩ := by decide
+end rssSetter
